@@ -5,6 +5,7 @@ from __future__ import annotations
 
 import copy
 import json
+import traceback
 
 from .. import observe, refcompile, docmodel
 from ..common import h64, short
@@ -28,7 +29,9 @@ NAMES = ["a", "b", "h", "a.b", "a(b", "x*", "[", "$", "\\", "a\\|b", "h h", "", 
          # pairs that unicode normalisation or case folding would identify: decomposed/precomposed, compatibility forms, case
          "e\u0301", "\u212b", "\u00c5", "A\u030a", "\u1100\u1161", "\uac00", "\uf900", "\u8c48", "\ufb01", "fi", "\u2126", "\u03a9",
          "A", "H", "\u0130", "\uff41", "\u00df", "ss"]
-VALUES = ["1", "", "v", "\\", "\\1", "\\g<0>", "$1", "<a>", "<b>", "a.b", "x y", "|", "\n", "é\U0001F600", "\\\\", "(", "<h>", "&", "\\n", "e\u0301", "\u212b", "\ufeff", "\u2028"]
+VALUES = ["1", "", "v", "\\", "\\1", "\\g<0>", "$1", "<a>", "<b>", "a.b", "x y", "|", "\n", "é\U0001F600", "\\\\", "(", "<h>", "&", "\\n", "e\u0301", "\u212b", "\ufeff", "\u2028",
+          # values that mention their own or another column's placeholder with something around it
+          "x<a>", "<a>x", "<a><a>", "<b>x", "x<h> y", "<<a>>", "<a> and <b>"]
 KTYPES = ["Context", "Action", "Outcome", "Conjunction", "Unknown"]
 KEYWORD = {"Context": "Given ", "Action": "When ", "Outcome": "Then ", "Conjunction": "And ", "Unknown": "* "}
 
@@ -201,7 +204,11 @@ def compare(doc, uri, next_free, prop, M, case, compiler=None):
     want = refcompile.ref_compile(doc, uri, refcompile.counter_from(next_free))
     M.count("compile_calls")
     try:
-        got = (compiler or Compiler(generator_at(next_free))).compile(doc)
+        with observe.cpu_budget(30):
+            got = (compiler or Compiler(generator_at(next_free))).compile(doc)
+    except observe.CpuBudgetExceeded as e:
+        M.violation(prop + ".crash", {"what": "Compiler.compile did not finish within 30 s of CPU time", "stack": short(traceback.format_exc()[-600:], 600)}, case)
+        return None
     except Exception as e:
         origin = observe._origin(e)
         mech = D1 if (type(e).__name__ == "error" and origin.endswith("_interpolate")) else None
